@@ -463,8 +463,12 @@ func (s *Store) readRootsScan(defaultToEmpty bool) (err error) {
 		if err != nil {
 			return err
 		}
-		if err := s.checkAndReadRoots(offset, length, rootsEnd); err == nil {
+		err = s.checkAndReadRoots(offset, length, rootsEnd)
+		if err == nil {
 			return nil
+		}
+		if re, ok := err.(rootsReadError); ok {
+			return re.err // A file error is not "no roots here".
 		}
 		atomic.AddInt64(&s.size, -1) // Roots were wrong, so keep scanning.
 	}
@@ -509,7 +513,7 @@ func (s *Store) checkAndReadRoots(offset int64, length uint32, rootsEnd []byte) 
 		length == uint32(atomic.LoadInt64(&s.size)-offset) {
 		data := make([]byte, atomic.LoadInt64(&s.size)-offset-int64(len(rootsEnd)))
 		if _, err := s.file.ReadAt(data, offset); err != nil {
-			return err
+			return rootsReadError{err}
 		}
 		if bytes.Equal(MagicBeg, data[:len(MagicBeg)]) &&
 			bytes.Equal(MagicBeg, data[len(MagicBeg):2*len(MagicBeg)]) {
@@ -518,6 +522,12 @@ func (s *Store) checkAndReadRoots(offset int64, length uint32, rootsEnd []byte) 
 	}
 	return errors.New("invalid roots")
 }
+
+// rootsReadError marks a failed read of a candidate roots record, as opposed
+// to a candidate that turned out not to be a roots record.
+type rootsReadError struct{ err error }
+
+func (e rootsReadError) Error() string { return e.err.Error() }
 
 func (s *Store) validateAndSetCollections(data []byte, length uint32) error {
 	var version, length0 uint32
